@@ -14,6 +14,7 @@ import (
 
 	"verif/sim/model"
 	"verif/sim/val"
+	"verif/sim/wrap"
 )
 
 func sortedUpdKeys(m map[string]interface{}) []string {
@@ -275,7 +276,12 @@ type updRecord struct {
 func makeUpdater(op *Op, rec *[]updRecord) func(*document.Document) *document.Document {
 	upd := op.updMap()
 	keys := sortedUpdKeys(upd)
+	calls := 0
 	return func(d *document.Document) *document.Document {
+		calls++
+		if op.Note == "abandon-cb" && calls == op.Abandon {
+			panic(wrap.AbandonSignal{}) // the caller's update function panics, the caller recovers
+		}
 		*rec = append(*rec, updRecord{d.ObjectId(), val.CloneMap(DocFromClover(d))})
 		switch op.UpdStyle {
 		case "copy":
